@@ -20,7 +20,8 @@ Transformations (complete list - the evidence file reports the counts per functi
       program behaviour; any other exception escaping the run is an engine limit (OutOfSubset, undecided).
   T6  (opt-in per contract, `comprehensions = True`) a single-generator list comprehension with a plain name target
       `[elt for x in it if c]` -> `__vc__.listcomp(it, lambda x: elt, lambda x: c)`; for an ordinary iterable the helper
-      IS that comprehension, a symbolic collection answers through `_vc_listcomp`.
+      IS that comprehension, a symbolic collection answers through `_vc_listcomp`.  With `comprehensions = 'tuple'` also
+      `[elt for a, b in it if c]` -> `__vc__.listcomp_star(it, lambda a, b: elt, lambda a, b: c)`.
   T4  global names are resolved in the spec environment (numpy -> pyvc.npspec, builtins ->
       pyvc.pyspec, plus what the contract supplies); an unknown global raises OutOfSubset.
 """
@@ -263,6 +264,16 @@ class Transformer(ast.NodeTransformer):
         if not self.comprehensions or len(node.generators) != 1:
             return node
         g = node.generators[0]
+        if (not g.is_async and self.comprehensions == 'tuple' and isinstance(g.target, ast.Tuple)
+                and all(isinstance(e, ast.Name) for e in g.target.elts)):
+            # T6 with a tuple target (opt-in: comprehensions = 'tuple'): [elt for a, b in it] -> __vc__.listcomp_star(it, lambda a, b: elt, cond)
+            self.stats['comprehensions'] = self.stats.get('comprehensions', 0) + 1
+            targs = ast.arguments(posonlyargs=[], args=[ast.arg(arg=e.id) for e in g.target.elts], kwonlyargs=[], kw_defaults=[], defaults=[])
+            tcond = ast.Constant(None)
+            if g.ifs:
+                ttest = g.ifs[0] if len(g.ifs) == 1 else ast.BoolOp(op=ast.And(), values=list(g.ifs))
+                tcond = ast.Lambda(args=targs, body=ttest)
+            return _call('listcomp_star', g.iter, ast.Lambda(args=targs, body=node.elt), tcond)
         if g.is_async or not isinstance(g.target, ast.Name):
             return node
         self.stats['comprehensions'] = self.stats.get('comprehensions', 0) + 1
